@@ -198,3 +198,30 @@ func enumEmptyExt(yield func(StressCase) bool) {
 		}
 	}
 }
+
+// enumRoundingInputs: the one member of the totals that is an input - the
+// rounding amount - given to every example invoice, order and delivery, at the
+// currency's precision and finer: it is used as written and stays as written.
+func enumRoundingInputs(yield func(StressCase) bool) {
+	cfg := vh.Cfg()
+	idx := 0
+	for _, d := range corpus.MustLoad() {
+		if d.IsEnv {
+			continue
+		}
+		switch d.ShortSch {
+		case "bill/invoice", "bill/order", "bill/delivery":
+		default:
+			continue
+		}
+		for _, v := range []string{"0.01", "-0.01", "0.003", "0.005", "-0.004", "0.0049", "-0.0051", "1", "0.10"} {
+			idx++
+			if idx%cfg.Shards != cfg.Shard {
+				continue
+			}
+			if !yield(StressCase{Doc: d.Path, Sets: map[string]string{"/totals/rounding": v}}) {
+				return
+			}
+		}
+	}
+}
